@@ -56,6 +56,11 @@ Cls(ps) == ClsFrom(ps, 1)
 \* "a comment" on both.  This is the reading under which `x {# a<LF>b #} <LF>y` -> `x y` (the second
 \* line holds only the end of a comment and spaces) is a documented removal.
 \*
+\* READING: "the content of a raw block is emitted exactly as written" is read as "never interpreted as
+\* template syntax"; its white space takes part in the line rule like any other text: the repository's
+\* own test (test/misc "Raw statement") demands  a<LF>{% raw %}<LF>b<LF>{% end %}<LF>c  ->  a<LF>b<LF>c,
+\* i.e. the LF that follows {% raw %} - lexically raw content - vanishes with the statement-only line.
+\*
 \* MayIdx: the source indices of the text / raw-content bytes lying on a CONTENT-FREE line: a line with
 \* at least (part of) one statement/comment, no value-producing show, and whose every byte of literal
 \* text or raw content is white space.  One pass; start = first index of the current line,
@@ -164,11 +169,12 @@ Cause(ps, out) ==
       \* the lines whose leading space must have been dropped to explain out
       needed == {s \in starts : LeadRun(src, cls, s) # {} /\
                      LET e == EnvWith(ps, src, cls, may \cup (lead \ LeadRun(src, cls, s))) IN ~Member(e, out)}
-      closer == IF \A s \in needed : CloserKind(ps, src, s) = "comment" THEN "line-closed-by-comment" ELSE "line-closed-by-other"
+      closer == IF needed = {} THEN "ambiguous"
+                ELSE IF \A s \in needed : CloserKind(ps, src, s) = "comment" THEN "line-closed-by-comment" ELSE "line-closed-by-other"
   IN IF Member(e1, out) THEN <<"leading-space-of-line-with-content-removed", closer>>
      ELSE IF Member(e2, out) THEN <<"space-after-multi-line-statement-removed-from-line-with-content", "-">>
      ELSE IF Member(e3, out) THEN <<"leading-space-and-space-after-multi-line-statement-removed", "-">>
-     ELSE IF Member(e4, out) THEN <<"space-of-line-with-content-removed", LastKind(ps)>>
+     ELSE IF Member(e4, out) THEN <<"white-space-outside-content-free-lines-removed", LastKind(ps)>>
      ELSE IF Member(e5, out) THEN <<"text-removed", LastKind(ps)>>
      ELSE <<"text-changed-or-added", LastKind(ps)>>
 
